@@ -678,6 +678,10 @@ impl<T: ArrayValue> Array<T> {
             self.validate();
             return Ok(self);
         }
+        // Map keys belong to the rows there were
+        if self.row_count().saturating_mul(count) != self.row_count() {
+            self.meta.take_map_keys();
+        }
         Ok(match count {
             // Keep nothing
             0 => {
@@ -730,6 +734,10 @@ impl<T: ArrayValue> Array<T> {
         Ok(self)
     }
     pub(crate) fn keep_scalar_real_impl(mut self, new_row_count: usize) -> Self {
+        // Map keys belong to the rows there were
+        if new_row_count != self.row_count() {
+            self.meta.take_map_keys();
+        }
         let row_len = self.row_len();
         let mut new_data = EcoVec::with_capacity(new_row_count * row_len);
         let delta = self.row_count() as f64 / new_row_count as f64;
